@@ -89,6 +89,7 @@ type Divergence struct {
 	Kind   string `json:"kind"`
 	Detail string `json:"detail"`
 	Path   string `json:"path"` // compact rendering of the program
+	Tags   []string `json:"tags"` // circumstances named by the specification along the behaviour
 }
 
 func (d *Divergence) String() string {
